@@ -53,9 +53,24 @@ theorem getTableLineage_lookup (cat : Cat) (t : StdTable) (st : St) :
 structure Denotes (L : Lineage) (R : Rel) : Prop where
   names : L.names = R.map (·.1)
   get : ∀ n, dictGet? L.srcOf n = dictGet? R n
+  tables : L.tables = relTables R
+
+/-- the upstream tables of a lineage object depend only on the source lists it was built from -/
+theorem mk_tables : ∀ (data : List (SCol × List SrcCol)) (l : Lineage),
+    (mkLineage data l).tables = tablesOfSrcs (data.map (·.2)) l.tables
+  | [], l => rfl
+  | (c, s) :: r, l => by simp [mkLineage, mk_tables r, tablesOfSrcs]
+
+theorem go_srcs (c : CreateTable) : ∀ (ds : List DefCol) (i : Nat),
+    (byCreateTable.go c ds i).map (·.2) = ds.map (fun d => [(⟨c.table.schema, c.table.name, some d.name⟩ : SrcCol)])
+  | [], _ => rfl
+  | d :: r, i => by simp [byCreateTable.go, go_srcs c r]
 
 theorem denotes_base (c : CreateTable) : Denotes (byCreateTable c) (baseRel c) :=
-  ⟨by rw [C16.byCreate_names]; simp [baseRel], C16.byCreate_srcOf c⟩
+  ⟨by rw [C16.byCreate_names]; simp [baseRel], C16.byCreate_srcOf c, by
+    unfold byCreateTable relTables
+    rw [mk_tables, go_srcs]
+    simp [Lineage.empty, baseRel, Function.comp_def]⟩
 
 /-- `d[k] = v` for successive pairs with pairwise distinct keys, none of them in `d`: the pairs are appended -/
 theorem foldl_dictSet_fresh {κ ν : Type} [BEq κ] [LawfulBEq κ] :
@@ -91,8 +106,12 @@ theorem number_map_name : ∀ (R : Rel) (i : Nat), (C16.number R i).map (fun p =
   | (n, s) :: r, i => by simp [C16.number, number_map_name r]
 
 /-- the lineage object built from a relation with pairwise distinct column names denotes that relation -/
+theorem number_srcs : ∀ (R : Rel) (i : Nat), (C16.number R i).map (·.2) = R.map (·.2)
+  | [], _ => rfl
+  | (n, s) :: r, i => by simp [C16.number, number_srcs r]
+
 theorem denotes_mk (R : Rel) (i : Nat) (h : (R.map (·.1)).Nodup) : Denotes (mkLineage (C16.number R i) Lineage.empty) R := by
-  refine ⟨?_, ?_⟩
+  refine ⟨?_, ?_, by rw [mk_tables, number_srcs]; rfl⟩
   · rw [C16.mk_names, C16.number_names]; simp [Lineage.empty]
   · intro n
     rw [C16.mk_srcOf]
